@@ -46,7 +46,49 @@ SEEDS = {
  "C19b": ("C19", "exact path multiplies by big.Rat.SetFloat64(1e-9)", "nund -> FUND for amounts above ~8.03e15 nund"),
  "C20a": ("C20", "purchase-order pagination callback counts out-of-window entries as hits without filtering", "filter + offset paging (or count_total) with non-matching orders interleaved"),
  "C20b": ("C20", "AddressesFromStreamKey skips the sender's own length byte", "a stream whose sender and receiver differ in address length (32-byte receiver)"),
+ # ---- second round (told to stay away from the central function of the property)
+ "C01c": ("C01", "enterprise params cached on the keeper, refreshed in SetParams", "a governance proposal whose params update is rolled back at execution, then a restart of one node: the restarted node reads the store, the other the cache"),
+ "C01d": ("C01", "WRKChain ante checkWrkChainMaxSlots looks up the maximum while ranging over a map", "a rejected transaction buying storage for two WRKChain ids, one over its maximum"),
+ "C02c": ("C02", "mints batched per purchaser, the amount added to a range copy", "two orders of one purchaser completing in the same block: only the first is minted"),
+ "C02d": ("C02", "MintCoinsAndLock skips the mint for vesting accounts", "the purchaser of a completing order is a vesting account"),
+ "C03c": ("C03", "decoded signer list cached on the enterprise keeper, refreshed in SetParams", "a proposal changing the signers that is rolled back at execution"),
+ "C03d": ("C03", "tally counts only decisions of signers authorised at tally time", "signer set changes between two decisions on one order"),
+ "C04c": ("C04", "whitelist check after the order has been stored as completed", "purchaser leaves the whitelist before the completing block (same idea as C04b)"),
+ "C04d": ("C04", "total locked cached per block height outside the store", "a transaction rejected in the ante chain after its unlock, then a paying one, in the same block"),
+ "C05c": ("C05", "the unlock decorator unlocks the fee granter's eFUND instead of the payer's", "fee granter that holds locked eFUND"),
+ "C05d": ("C05", "UnlockCoinsForFees subtracts the whole fee set to choose its branch", "fee with a second denomination (same idea as C05a)"),
+ "C06c": ("C06", "BEACON fee parameters cached on the keeper, written by SetParams", "a fee-changing proposal rolled back at execution: the ante check enforces fees that never came into force"),
+ "C06d": ("C06", "CheckIsWrkChainTx classifies a transaction by its first message", "a non-WRKChain message before the WRKChain message, wrong fee"),
+ "C07c": ("C07", "BEACON ExportGenesis keeps firstInState across beacons", "same idea as C07b"),
+ "C07d": ("C07", "WRKChain pruning clamps the chain's limit to the current maximum parameter", "governance lowers the maximum below a limit a chain already holds, then records"),
+ "C08c": ("C08", "WRKChain in-state limit cached in a keeper map", "a purchase that is only simulated, or rolled back with its transaction"),
+ "C08d": ("C08", "BEACON InitGenesis clamps the imported limit to the maximum", "limit above a maximum that governance lowered later, then export/import"),
+ "C09c": ("C09", "BEACON export lists registrations through a getter capped at 100", "more than 100 registered BEACONs, export/import"),
+ "C09d": ("C09", "WRKChain owner memoised in a keeper-level map", "registration + record in a rolled-back transaction, then another registrant gets the id"),
+ "C10c": ("C10", "stream params cached on the keeper, refreshed in SetParams", "a fee-changing proposal rolled back at execution: releases are split at the rate that never came into force"),
+ "C10d": ("C10", "top-up within the last second before the zero time treated as expired, deposit set to zero + top-up", "sub-second block time, top-up in the last second with an unclaimed remainder"),
+ "C11c": ("C11", "ClaimFromStream returns early when the claim is zero, without recording the outflow time", "flow-rate change less than a second after the last release, then a claim"),
+ "C11d": ("C11", "CalculateDuration uses Quo (rounds half-even at 18 decimals) instead of QuoTruncate", "flow rate above 2e18/s and a deposit a few units short of a multiple of it"),
+ "C12c": ("C12", "AddressesFromStreamKey reads the sender with the receiver's length", "a 32-byte sender (no key can sign for it in the harness), export/import"),
+ "C12d": ("C12", "top-up of an expired stream rebuilds the stream without its Cancellable flag", "create, expire without full claim, top up, cancel"),
+ "C13c": ("C13", "BEACON owner memoised in a keeper map", "same idea as C09a / C13b"),
+ "C13d": ("C13", "the WRKChain fee decorator overwrites the simulate flag it passes on", "a WRKChain transaction delivered in a block with the wrong key: signature checks are skipped"),
+ "C14c": ("C14", "gov module account no longer exempt from the blocked addresses", "an order raised by the governance account is accepted: the mint to it panics in BeginBlock"),
+ "C14d": ("C14", "decoded signer list cached, refreshed in SetParams", "a multi-message proposal whose params update is rolled back"),
+ "C15c": ("C15", "stream ExportGenesis skips streams with zero deposit", "an emptied stream at export time"),
+ "C15d": ("C15", "SetWrkChainStorageLimit enforces the current maximum (InitGenesis panics on the error)", "a limit above a maximum lowered later, export/import"),
+ "C16c": ("C16", "WRKChain fee check skipped on ReCheckTx", "same idea as C06a / C16b"),
+ "C16d": ("C16", "stream InitGenesis replaces a validator fee of exactly 0 by the default", "governance sets the fee to 0, export/import"),
+ "C17c": ("C17", "total locked decremented by the whole fee when locked < fee", "same idea as C04a: the books break, the supply figures follow the broken counter"),
+ "C17d": ("C17", "TotalSupply builds a new PageRequest without the key", "key-based paging over more denominations than fit a page"),
+ "C18c": ("C18", "IterateWrkChains decodes every entry into one reused struct", "same idea as C09b"),
+ "C18d": ("C18", "BEACON genesis import writes all timestamps through one reused key buffer", "import of a BEACON with two or more timestamps"),
+ "C19c": ("C19", "nund -> FUND multiplies by SetFloat64(1e-9)", "same idea as C19b"),
+ "C19d": ("C19", "uint64 fast path for whole FUND amounts", "whole amount between 18446744074 and 2^64-1 FUND"),
+ "C20c": ("C20", "AddressesFromStreamKey slices the sender with the receiver's length", "same idea as C18a / C20b"),
+ "C20d": ("C20", "count-only fast path with status == nil || purchaser == empty", "exactly one filter set, offset paging or count_total"),
 }
+
 
 root = "/verif/seeded"
 rows = []
